@@ -4,7 +4,9 @@ import PV.Model.Algo
   first branch of `__divmod__` (coefficient by coefficient), `__add__` / `__radd__` / `__sub__` /
   `__rsub__` with a constant (the constant becomes the polynomial `((0, c),)`, unless it is falsy),
   `__mul__` / `__rmul__` with a constant (coefficients scaled).  Mirrors
-  pymbolic/polynomial.py as it is, including `__rsub__`, which computes `self - other`.
+  pymbolic/polynomial.py as it is.  `__rsub__` is `(-self) + other` since repo fix 60a234e
+  (`rsubScalar`); before it was `(-other) + self`, i.e. `self - other` (`rsubScalarPy`, kept as the
+  regression witness of the known finding `poly-scalar-rsub-negated`).
 -/
 namespace PV.Algo
 
@@ -30,12 +32,13 @@ def addScalar (p : Poly) (k : Int) : Poly :=
 /-- `Polynomial.__sub__(self, other)` for `other` a Python int: `self + (-other)`. -/
 def subScalar (p : Poly) (k : Int) : Poly := addScalar p (-k)
 
-/-- `Polynomial.__rsub__(self, other)` — what `other - self` runs for `other` a Python int — AS
-CODED: `return (-other) + self`, i.e. `int.__add__` declines and `Polynomial.__radd__` computes
-`self + (-other)`.  This is `self - other`, not `other - self` (`rsubScalarPy_negated`). -/
+/-- `Polynomial.__rsub__(self, other)` AS IT WAS CODED BEFORE repo fix 60a234e: `return (-other) +
+self`, i.e. `int.__add__` declines and `Polynomial.__radd__` computes `self + (-other)`.  This is
+`self - other`, not `other - self` (`rsubScalarPy_negated`).  No longer the model of the code. -/
 def rsubScalarPy (p : Poly) (k : Int) : Poly := addScalar p (-k)
 
-/-- what `other - self` has to be: `(-self) + other` -/
+/-- `Polynomial.__rsub__(self, other)` — what `other - self` runs for `other` a Python int — as
+coded since repo fix 60a234e: `return (-self) + other` (`__neg__`, then `__add__` with a constant) -/
 def rsubScalar (p : Poly) (k : Int) : Poly := addScalar (neg p) k
 
 /-- `Polynomial.__rmul__(self, other)`: `other * coeff` for every term. -/
